@@ -10909,7 +10909,41 @@ func (p *parser) visitAndAppendStmt(stmts []js_ast.Stmt, stmt js_ast.Stmt) []js_
 			return stmts
 		}
 
-		s.Decls = p.lowerObjectRestInDecls(s.Decls)
+		if s.IsExport && p.options.unsupportedJSFeatures.Has(compat.ObjectRestSpread) {
+			// Lowering object rest patterns adds declarations for temporary variables
+			// to the same statement. Those must not become exports of the module, so
+			// "export const {a, ...b} = c" turns into a declaration that isn't exported
+			// followed by "export {a, b}".
+			declared := make(map[ast.Ref]bool)
+			var items []js_ast.ClauseItem
+			js_ast.ForEachIdentifierBindingInDecls(s.Decls, func(loc logger.Loc, b *js_ast.BIdentifier) {
+				declared[b.Ref] = true
+				items = append(items, js_ast.ClauseItem{
+					Alias:    p.symbols[b.Ref.InnerIndex].OriginalName,
+					AliasLoc: loc,
+					Name:     ast.LocRef{Loc: loc, Ref: b.Ref},
+				})
+			})
+			s.Decls = p.lowerObjectRestInDecls(s.Decls)
+			hasTemporary := false
+			js_ast.ForEachIdentifierBindingInDecls(s.Decls, func(loc logger.Loc, b *js_ast.BIdentifier) {
+				if !declared[b.Ref] {
+					hasTemporary = true
+				}
+			})
+			if hasTemporary {
+				s.IsExport = false
+				s.Kind = p.selectLocalKind(s.Kind)
+				for _, item := range items {
+					p.recordUsage(item.Name.Ref)
+				}
+				stmts = append(stmts, stmt)
+				stmts = append(stmts, js_ast.Stmt{Loc: stmt.Loc, Data: &js_ast.SExportClause{Items: items, IsSingleLine: true}})
+				return stmts
+			}
+		} else {
+			s.Decls = p.lowerObjectRestInDecls(s.Decls)
+		}
 
 		// Optimization: Avoid unnecessary "using" machinery by changing ones
 		// initialized to "null" or "undefined" into a normal variable. Note that
